@@ -666,41 +666,48 @@ func c07SweepBits(b *c07Base, all bool, extra int, rng *kit.Rng) []c07Edit {
 	return out
 }
 
-// c07RandomEdits: multi-byte edits (scattered bytes and short runs), each changing every byte it touches.
-func c07RandomEdits(b *c07Base, n int, rng *kit.Rng) []c07Edit {
+// c07RandomEdits: multi-byte edits (scattered bytes and short runs), each changing every byte it touches, touching
+// at most maxT tamper classes (the table knows combinations of up to maxT classes).
+func c07RandomEdits(b *c07Base, n, maxT int, rng *kit.Rng) []c07Edit {
 	var out []c07Edit
 	interesting := [][2]int{}
 	for _, f := range b.lay.fields {
 		interesting = append(interesting, f)
 	}
 	sort.Slice(interesting, func(i, j int) bool { return interesting[i][0] < interesting[j][0] })
-	pick := func() int {
-		if len(interesting) > 0 && rng.Intn(3) > 0 {
-			f := interesting[rng.Intn(len(interesting))]
-			if f[1] > f[0] {
-				return f[0] + rng.Intn(f[1]-f[0])
-			}
-		}
-		return rng.Intn(len(b.pkt))
-	}
-	for len(out) < n {
+	pickIn := func(f [2]int) int { return f[0] + rng.Intn(f[1]-f[0]) }
+	whole := [2]int{0, len(b.pkt)}
+	for tries := 0; len(out) < n && tries < 200*n; tries++ {
 		var e c07Edit
 		seen := map[int]bool{}
-		if rng.Intn(2) == 0 { // a run of 2..8 bytes
-			p, l := pick(), 2+rng.Intn(7)
+		f := whole
+		if len(interesting) > 0 && rng.Intn(3) > 0 {
+			f = interesting[rng.Intn(len(interesting))]
+		}
+		if f[1] <= f[0] {
+			continue
+		}
+		if rng.Intn(2) == 0 { // a run of 2..8 bytes starting in the field (it may run over its end)
+			p, l := pickIn(f), 2+rng.Intn(7)
 			for i := p; i < p+l && i < len(b.pkt); i++ {
 				e.Pos = append(e.Pos, i)
 				e.Xor = append(e.Xor, byte(1+rng.Intn(255)))
 			}
-		} else { // 2..4 scattered bytes
+		} else { // 2..4 scattered bytes, in one field or anywhere
 			for k := 2 + rng.Intn(3); k > 0; k-- {
-				p := pick()
+				p := pickIn(f)
+				if maxT > 1 && rng.Intn(2) == 0 {
+					p = pickIn(whole)
+				}
 				if !seen[p] {
 					seen[p] = true
 					e.Pos = append(e.Pos, p)
 					e.Xor = append(e.Xor, byte(1+rng.Intn(255)))
 				}
 			}
+		}
+		if len(e.Pos) < 2 || len(b.lay.classes(b.pkt, e)) > maxT {
+			continue
 		}
 		out = append(out, e)
 	}
@@ -801,6 +808,10 @@ func TestVerifC07Replay(t *testing.T) {
 	res := kit.NewResult()
 	defer func() { res.Save(true) }()
 	dir := t.TempDir()
+	if !c06WaitInput(kit.Env("VERIF_IN", "")) {
+		res.Note("aborted by the driver before any case was run")
+		return
+	}
 	tb, err := c07LoadTable(kit.Env("VERIF_IN", ""))
 	if err != nil {
 		t.Fatal(err)
@@ -906,7 +917,7 @@ func TestVerifC07Replay(t *testing.T) {
 					r.c07One(env, b, e, 0, 0)
 					res.Stat("single_bit_flips", 1)
 				}
-				for _, e := range c07RandomEdits(b, edits, rng) {
+				for _, e := range c07RandomEdits(b, edits, tb.maxT, rng) {
 					r.c07One(env, b, e, 0, 0)
 					res.Stat("multi_byte_edits", 1)
 				}
